@@ -23,7 +23,10 @@ use prost::{DecodeError, Message};
 use crate::proto::command::ListenersCount;
 
 pub const MAX_FDS_OUT: usize = 200;
-pub const MAX_BYTES_OUT: usize = 4096;
+/// Large enough for the manifest of `MAX_FDS_OUT` listeners with the longest
+/// textual addresses (a bracketed IPv6 address with port is 47 bytes, plus 2
+/// bytes of protobuf framing each: 200 * 49 < 10 KiB).
+pub const MAX_BYTES_OUT: usize = 16384;
 
 #[derive(thiserror::Error, Debug)]
 pub enum ScmSocketError {
